@@ -124,7 +124,7 @@ c.raises("kill/only-unexpected-oserror", "OSError", post="forall(Int, lambda k: 
 c.raises_only("kill/only-oserror")
 c.modifies("G.killed")
 
-c = M.contract("get_exitcodes_terminated_worker", props=["C02", "C20"])
+c = M.contract("get_exitcodes_terminated_worker", props=["C02", "C20", "C10"])
 c.param("processes", T.Map(T.Int, T.Ref("Process")))
 c.returns(T.Str)
 c.ensures("exitcodes/formatted-once", "log_count('call:_format_exitcodes') == 1 and result == log_arg('call:_format_exitcodes', 0, 0)")
@@ -140,7 +140,7 @@ c.returns(T.Str)
 c.modifies()
 c.trusted_summary = True
 
-c = M.contract("_get_exitcode_name", props=["C02", "C20"])
+c = M.contract("_get_exitcode_name", props=["C02", "C20", "C10"])   # C10: a resize terminates "also when workers die during it" only if the manager thread survives naming the death
 c.param("exitcode", T.Int)
 c.returns(T.Str)
 c.ensures("exitcodes/exit-for-nonnegative-non-255", "implies(exitcode >= 0 and exitcode != 255, result == 'EXIT')")
